@@ -28,7 +28,8 @@ func c13Cfgs(keep string) []RCfg {
 	hosts := [][2]string{{"proxy.example.com", "127.0.0.1"}, {"proxy2.example.com", "127.0.0.2"}, {"other.example.com", "127.0.0.3"}, {"nh.example.net", "127.0.2.1"}}
 	a := RCfg{Name: "svc.example.com", KeepNextHop: keep, Hosts: hosts,
 		Listens: []RListen{{Addr: "127.0.0.1", UDP: 5060, TCP: 5062, Backends: []string{"udp://127.0.1.1:7000"}},
-			{Addr: "127.0.0.2", UDP: 5060, Backends: []string{"udp://127.0.1.3:7000"}},
+			// an entry whose traffic towards the backends leaves from another (egress) address
+			{Addr: "127.0.0.2", UDP: 5060, Backends: []string{"udp://127.0.1.3:7000"}, BackendLocalAddr: "127.0.0.4"},
 			// a listens entry without an address: bound to every local address
 			{Addr: "", UDP: 5096, Backends: []string{"udp://127.0.1.1:7000"}}}}
 	b := RCfg{Name: "other.example.com", Hosts: hosts, Listens: []RListen{{Addr: "127.0.0.3", UDP: 5060, Backends: []string{"udp://127.0.1.4:7000"}}}}
@@ -43,11 +44,17 @@ func c13Msg(s *EnumSpec, v []int) *WMsg {
 	if s.Val(v, "arrival") == "udp-wildcard" {
 		lport = "5096"
 	}
+	lip, alias := "127.0.0.1", "proxy.example.com"
+	if s.Val(v, "arrival") == "udp-egress" {
+		lip, alias = "127.0.0.2", "proxy2.example.com"
+	}
 	first := map[string]string{
+		// the egress address of the entry with the listener's port: not the listener, never consumed
+		"egress-addr-port":        "<sip:127.0.0.4:" + lport + ";lr>",
 		"unresolvable-right-port": "<sip:edge-gw.invalid:" + lport + ";lr>",
 		"addr-port-leading-zero":  "<sip:127.0.0.1:0" + lport + ";lr>",
-		"none":                    "", "addr-port": "<sip:127.0.0.1:" + lport + ";lr>", "alias-port": "<sip:proxy.example.com:" + lport + ";lr>",
-		"alias-noport": "<sip:proxy.example.com;lr>", "addr-noport": "<sip:127.0.0.1;lr>", "wrong-port": "<sip:127.0.0.1:5099;lr>",
+		"none":                    "", "addr-port": "<sip:" + lip + ":" + lport + ";lr>", "alias-port": "<sip:" + alias + ":" + lport + ";lr>",
+		"alias-noport": "<sip:" + alias + ";lr>", "addr-noport": "<sip:" + lip + ";lr>", "wrong-port": "<sip:127.0.0.1:5099;lr>",
 		"foreign-host-right-port": "<sip:127.0.2.2:" + lport + ";lr>", "other-listener": "<sip:127.0.0.2:5060;lr>", "other-listener-alias": "<sip:proxy2.example.com:5060;lr>",
 		"other-service": "<sip:127.0.0.3:5060;lr>",
 		"own-display":   "Me <sip:127.0.0.1:" + lport + ";lr>", "own-hdrpar": "<sip:127.0.0.1:" + lport + ";lr>;x=1", "own-user": "<sip:px@127.0.0.1:" + lport + ";lr>",
@@ -123,6 +130,9 @@ func c13EvalIn(w *RelayWorld, cfgs []RCfg, v []int, seq int) (string, string, bo
 	case "udp-wildcard":
 		lport, lidx = 5096, 2
 		w.SendUDP("127.0.0.9:5060", "127.0.0.1:5096", m.Render())
+	case "udp-egress":
+		lidx = 1
+		w.SendUDP("127.0.0.9:5060", "127.0.0.2:5060", m.Render())
 	default:
 		w.SendUDP("127.0.0.9:5060", "127.0.0.1:5060", m.Render())
 	}
@@ -225,7 +235,7 @@ func init() {
 	c13Spec = &EnumSpec{
 		Feats: []Feat{
 			{Name: "first", Vals: []string{"none", "addr-port", "alias-port", "alias-noport", "addr-noport", "wrong-port", "foreign-host-right-port", "other-listener", "other-service",
-				"own-display", "own-hdrpar", "own-user", "own-nolr", "other-listener-alias", "unresolvable-right-port", "addr-port-leading-zero"}},
+				"own-display", "own-hdrpar", "own-user", "own-nolr", "other-listener-alias", "unresolvable-right-port", "addr-port-leading-zero", "egress-addr-port"}},
 			{Name: "e1", Vals: ent},
 			{Name: "e2", Vals: ent},
 			{Name: "e3", Vals: ent, Quick: 3},
@@ -233,7 +243,7 @@ func init() {
 			{Name: "layout", Vals: []string{"one-line", "m1", "m2", "m3", "m4", "m5", "m6", "m7", "m8", "m9", "m10", "m11", "m12", "m13", "m14", "m15"}, Quick: 8},
 			{Name: "sep", Vals: []string{"comma", "comma-blank"}},
 			{Name: "keep", Vals: []string{"off", "on"}},
-			{Name: "arrival", Vals: []string{"udp", "tcp", "udp-wildcard"}},
+			{Name: "arrival", Vals: []string{"udp", "tcp", "udp-wildcard", "udp-egress"}},
 		},
 		Eval: c13Eval,
 		Seqs: [][]string{{"e1", "e2", "e3", "e4"}},
@@ -265,6 +275,14 @@ func init() {
 		}
 		// the address-less listener is exercised without a first entry and with the unresolvable one
 		if s.Val(v, "arrival") == "udp-wildcard" && s.Val(v, "first") != "none" && s.Val(v, "first") != "unresolvable-right-port" {
+			return false
+		}
+		// the entry with an egress address: own entries by address / alias, and the egress address itself
+		eg := map[string]bool{"none": true, "addr-port": true, "alias-port": true, "alias-noport": true, "addr-noport": true, "egress-addr-port": true}
+		if s.Val(v, "arrival") == "udp-egress" && !eg[s.Val(v, "first")] {
+			return false
+		}
+		if s.Val(v, "first") == "egress-addr-port" && s.Val(v, "arrival") != "udp-egress" {
 			return false
 		}
 		return true
